@@ -96,6 +96,16 @@ class StreamCore:
             want = min(want, n)
         if cap is not None:
             want = min(want, max(1, cap))
+        if 'eio_once' in self.faults and not self.fired.get('eio_once') and self.pos + max(want, 1) > self.faults['eio_once'] >= self.pos:
+            # a transient fault: this read fails, the following ones succeed
+            self._fire('eio_once')
+            self.injected = InjectedOSError(110, 'simulated transient timeout')
+            raise self.injected
+        if 'eio' in self.faults and self.faults['eio'] >= self.limit and self.pos >= self.limit:
+            # the stream raises instead of reporting EOF
+            self._fire('eio')
+            self.injected = InjectedOSError(5, 'simulated I/O error at EOF')
+            raise self.injected
         if 'eio' in self.faults and self.pos + want > self.faults['eio'] >= self.pos:
             # deliver up to the fault offset first; the next read raises
             want = self.faults['eio'] - self.pos
@@ -198,6 +208,8 @@ class SimBuffered(io.BufferedIOBase):
                 break
             chunks.append(c)
             total += len(c)
+            if self.core.pos >= self.core.limit:
+                break     # length-aware (like an HTTP response with Content-Length): no extra probe for EOF
         return b''.join(chunks)
 
     def read1(self, n=-1):
